@@ -50,8 +50,21 @@ macro_rules! gh_obj {
             let ka: [u8; $k] = arr(&keyv);
             GenericHash::<$k, $o>::hash(&all, Some(&ka))
         };
+        // a key held in a Vec that is LONGER than KEY_LENGTH (the container rule: the whole Vec is the BLAKE2b key, in every form)
+        let veckey_bad: Option<String> = if !keyv.is_empty() && keyv.len() + 7 <= 64 {
+            let mut kl = keyv.clone();
+            kl.extend_from_slice(&[0x33u8; 7]);
+            let inc: Result<Vec<u8>, dryoc::Error> = (|| { let mut h = GenericHash::<$k, $o>::new(Some(&kl))?; for c in $chunks.iter() { h.update(c); } h.finalize_to_vec() })();
+            let oneshot: Result<Vec<u8>, dryoc::Error> = GenericHash::<$k, $o>::hash_to_vec(&all, Some(&kl));
+            let sod = so_generichash($o, &kl, &all);
+            match (inc, oneshot) {
+                (Ok(i), Ok(o1)) => if i == o1 && ok(&i) == sod { None } else { Some(format!("mismatch {}-byte Vec key with GenericHash<{},{}>: incremental {} one-shot {} libsodium {}", kl.len(), $k, $o, hex(&i), hex(&o1), sod)) },
+                _ => Some("mismatch Vec key longer than KEY_LENGTH refused".to_string()),
+            }
+        } else { None };
+        if let Some(m) = veckey_bad { return Some((m, na())); }
         match (r, one, one2) {
-            (Ok(v), Ok(w), Ok(x)) => if v == w && x.as_slice() == v.as_slice() { ok(&v) } else { format!("mismatch incremental {} != one-shot {}", hex(&v), hex(&w)) },
+            (Ok(v), Ok(w), Ok(x)) => if v.len() != $o { format!("mismatch finalize_to_vec returned {} bytes for OUTPUT_LENGTH {}", v.len(), $o) } else if v == w && x.as_slice() == v.as_slice() { ok(&v) } else { format!("mismatch incremental {} != one-shot {}", hex(&v), hex(&w)) },
             (Err(_), Err(_), Err(_)) => "err".to_string(),
             _ => "mismatch incremental/one-shot result".to_string(),
         }
@@ -141,8 +154,18 @@ pub fn dispatch(op: &str, a: &[&str]) -> Option<Ans> {
             let mut st = OnetimeAuth::new(key);
             st.update(&b[1]);
             let r3 = st.verify(&mac);
+            // the same tag at the head of a longer Vec (`ByteArray<16> for Vec<u8>`: at least 16 bytes, the array is the prefix):
+            // the incremental and the one-shot object verifier see the same 16 bytes
+            let mut long = mac.to_vec();
+            long.extend_from_slice(&[7u8, 7, 7]);
+            let r4 = OnetimeAuth::compute_and_verify(&long, key, &b[1]);
+            let mut st2 = OnetimeAuth::new(key);
+            st2.update(&b[1]);
+            let r5 = st2.verify(&long);
             if r.is_ok() != r2.is_ok() || r.is_ok() != r3.is_ok() {
                 ("mismatch-obj".into(), rc(s).into())
+            } else if r4.is_ok() != r.is_ok() || r5.is_ok() != r.is_ok() {
+                (format!("mismatch-obj tag at the head of a longer Vec: compute_and_verify {} incremental verify {} exact tag {}", res(&r4), res(&r5), res(&r)), rc(s).into())
             } else {
                 (res(&r).into(), rc(s).into())
             }
@@ -205,8 +228,16 @@ pub fn dispatch(op: &str, a: &[&str]) -> Option<Ans> {
             let mut st = Auth::new(key);
             st.update(&b[1]);
             let r3 = st.verify(&mac);
+            let mut long = mac.to_vec();
+            long.extend_from_slice(&[7u8, 7, 7]);
+            let r4 = Auth::compute_and_verify(&long, key, &b[1]);
+            let mut st2 = Auth::new(key);
+            st2.update(&b[1]);
+            let r5 = st2.verify(&long);
             if r.is_ok() != r2.is_ok() || r.is_ok() != r3.is_ok() {
                 ("mismatch-obj".into(), rc(s).into())
+            } else if r4.is_ok() != r.is_ok() || r5.is_ok() != r.is_ok() {
+                (format!("mismatch-obj tag at the head of a longer Vec: compute_and_verify {} incremental verify {} exact tag {}", res(&r4), res(&r5), res(&r)), rc(s).into())
             } else {
                 (res(&r).into(), rc(s).into())
             }
